@@ -713,6 +713,8 @@ def filing_keys(F, rep):
             aty = t.get("aty") or []
             if m[2] not in ("entry", "insert") or len(aty) < 2 or not re.search(r"Map<u16, ", aty[0]) or len(t["args"]) < 2:
                 continue
+            if re.search(r"Map<u16, rust_decimal::decimal::Decimal[,>]", aty[0]):
+                continue        # a table of per-year constants (the exemptions), not a grouping of dated elements
             tb = tb or Terms(F, b, inline_depth=0)
             k = tb.operand(t["args"][1])
             why = derived(k)
@@ -722,7 +724,9 @@ def filing_keys(F, rep):
                    b.loc(t["sp"]), key=f"R7:{b.short}:year-key")
     rep.count("year_keyed_filings", n)
     if n < 2:
-        rep.unresolved("R7", "year-filing", f"only {n} filings into a year-keyed map found (legs and dividends expected)")
+        # not a floor: a grouping written without a year-keyed map (a tagged vector partitioned afterwards, refactoring r10) has
+        # fewer such sites; the rule judges the filings it finds and says so
+        rep.note(f"R7: only {n} filings into a year-keyed map found (legs and dividends are expected to be filed by year; other groupings are not judged)")
 
 
 def controls(pctx, rep):
